@@ -75,7 +75,10 @@ def _step(draw):
     hmag = 10.0 ** draw(st.floats(-3, 1))
     return dict(part="step", method=name, zmag=zmag, ang=ang, kind=kind, h=hmag * draw(st.sampled_from([1.0, -1.0])),
                 tol=draw(st.sampled_from([1e-6, 1e-9, 1e-12])), user_jac=draw(st.booleans()),
-                y0=[draw(st.sampled_from([1.0, -0.5, 2.0, 1e-3])), draw(st.sampled_from([0.0, 1.0, -2.0]))])
+                y0=[draw(st.sampled_from([1.0, -0.5, 2.0, 1e-3])), draw(st.sampled_from([0.0, 1.0, -2.0]))],
+                # the judged step continues, on the same integrator object, a step taken with lambda x warm (the constant of
+                # the rhs is then changed: new dict or edited in place)
+                warm=draw(st.sampled_from([None, None, 40.0, 0.025, 1.0])), inplace=draw(st.booleans()))
 
 
 def parts(tier):
@@ -154,15 +157,34 @@ def _check_step(case):
         y0 = np.array(case["y0"], dtype=np.float64)
 
     class F(object):
-        def __call__(self, t, y, **kw):
-            return Amat @ y
+        def __call__(self, t, y, k=1.0, **kw):
+            return k * (Amat @ y)
     f = F()
     if case["user_jac"]:
-        f.jac = lambda t, y, **kw: Amat.copy()
+        f.jac = lambda t, y, k=1.0, **kw: k * Amat
     rhs = DiffRHS(f)
     integ = M.get(name)(sys_dim=y0.shape, dtype=np.float64, rtol=tol, atol=tol)
+    t_start = np.float64(0.0)
+    consts = {"k": 1.0}
+    if case.get("warm") is not None and abs(case["zmag"] * case["warm"]) <= 1e4:
+        consts = {"k": case["warm"]}
+        try:
+            _, (dT0, dY0) = integ(rhs, np.float64(-h), y0, consts, np.float64(h))
+            y0 = y0 + np.asarray(dY0, dtype=np.float64)
+            t_start = np.float64(-h) + dT0
+            labels.append("continued_after_a_step_with_another_lambda")
+        except Exception as e:
+            if exc_origin(e)[0] == "harness":
+                raise
+            integ = M.get(name)(sys_dim=y0.shape, dtype=np.float64, rtol=tol, atol=tol)      # warm-up failed: judge a cold step
+        if case.get("inplace"):
+            consts["k"] = 1.0
+        else:
+            consts = {"k": 1.0}
+        if not np.all(np.isfinite(y0)) or float(np.linalg.norm(y0)) == 0.0 or float(np.linalg.norm(y0)) > 1e100:
+            return [], dict(nontrivial=False, labels=labels + ["warm_state_degenerate"])
     try:
-        _, (dT, dY) = integ(rhs, np.float64(0.0), y0, {}, np.float64(h))
+        _, (dT, dY) = integ(rhs, t_start, y0, consts, np.float64(h))
     except FailedToMeetTolerances:
         return [], dict(nontrivial=False, labels=labels + ["reported_failure"])
     except Exception as e:
